@@ -114,7 +114,7 @@ REQUIRED_PROBES = {
     "C12": ["prelude_sibling_trained", "has_frozen", "frozen_strict_subset", "all_frozen", "freeze_NT_subtree", "freeze_fn_leaves", "trainable_moved", "teleport_fired", "frozen_grad_leaves_checked", "states_checked"],
     "C11": ["rejection_panel_items", "history_failed_calls", "ctor_roundtrips", "states_checked", "teleport_fired", "sig_scale_min", "sig_tri_diag_min", "sig_df_min", "sig_mix_lse_absmax", "sig_spline_x_mindiff", "sig_planar_margin"],
     "C09": ["maf_nodes", "coupling_nodes", "states_checked", "teleport_fired", "sig_cond", "all_positive_states_checked", "prelude_same_sizes"],
-    "C18": ["fault_rows", "fault_row_batches", "finite_loss_with_fault_row", "poison_checks", "inf_loss_batches", "clean_run"],
+    "C18": ["prelude_sibling_used", "fault_rows", "fault_row_batches", "finite_loss_with_fault_row", "poison_checks", "inf_loss_batches", "clean_run"],
     "C15": ["batch_1", "batch_gt_n", "cond", "remainder_skipped", "val_single_batch", "perm_seam_checked", "group", "group_switches"],
     "C16": ["early_stop_hit", "best_not_last", "best_not_first", "tie_at_min", "nan_in_val", "inf_in_val", "max_epochs_0",
             "patience_0", "multi_val_batches", "multi_train_batches", "vi_steps_0", "nan_in_losses", "inf_in_losses", "ran_to_max", "group", "group_switches"],
